@@ -499,7 +499,15 @@ func (s *rsim) deliverNode(n string) {
 			s.r.Probe("node_address_not_in_bgp_spec")
 		}
 	}
-	for _, k := range s.r.Src.Perm(3, "node_msg_order") {
+	for i, k := range s.r.Src.Perm(3, "node_msg_order") {
+		if i > 0 && s.r.Src.Chance(200, "node_msgs_straddle_apply") {
+			// the messages of one node change need not arrive in one round: the dataplane applies in between
+			// (not judged here: the model already knows the whole change)
+			s.r.Probe("node_msgs_straddle_apply")
+			s.r.Op("apply (CompleteDeferredWork x3) between the messages of node %s", n)
+			s.sut.apply()
+			s.applies++
+		}
 		switch k {
 		case 0:
 			s.sut.sendNode(n, addr, mask)
